@@ -531,10 +531,12 @@ example :
     (run d (packOps false d ⟨[0, 1], [0, 1]⟩ (some [1]) false false 4 5)).names = [0, 5] := by
   decide
 
-/-- **Witness (real behaviour, pack-0.92).**  `pack(hint=[p])` on a pack whose
-repacked content hashes to its own name: `finish()` rewrites the indices of the
-LISTED pack `1` in place, so after 3 operations a listed pack is incomplete
-(then `allocate` raises "Pack already exists" and nothing is saved). -/
+/-- **Witness (the behaviour of pack-0.92 before fix 24f6bb3).**  `pack(hint=[p])`
+on a pack whose repacked content hashes to its own name, with a packer that does
+not check for a listed name: `finish()` rewrites the indices of the LISTED pack
+`1` in place, so after 2 operations a listed pack is incomplete (then `allocate`
+raises "Pack already exists" and nothing is saved).  This is why every packer
+needs the already-listed guard and why the theorems assume fresh names. -/
 theorem pack_hint_collision_witness :
     let d : Disk := ⟨[0, 1], packFiles false 0 ++ packFiles false 1, [], false⟩
     complete false d = true ∧
